@@ -496,6 +496,19 @@ def on_surface(ctx):
     # returned distance = |intersection - start|
     rets = [s for s in nr.node.body if isinstance(s, ast.Return)]
     rsrc = unparse(rets[0].value) if rets else ''
+    # the returned array is the norm itself or a masked copy of it
+    # (np.where(converged, t, nan)): resolve one level of local names
+    defs = {st.targets[0].id: unparse(st.value) for st in nr.node.body
+            if isinstance(st, ast.Assign) and len(st.targets) == 1 and
+            isinstance(st.targets[0], ast.Name)}
+    if rets and isinstance(rets[0].value, ast.Call) and \
+            unparse(rets[0].value.func) == 'np.where' and \
+            len(rets[0].value.args) == 3 and any(
+                unparse(a) in ('np.nan', 'np.inf')
+                for a in rets[0].value.args[1:]):
+        rsrc = [unparse(a) for a in rets[0].value.args[1:]
+                if unparse(a) not in ('np.nan', 'np.inf')][0]
+    rsrc = defs.get(rsrc, rsrc)
     if 'norm(intersections - position' in rsrc and 'axis=1' in rsrc:
         res.ok('returned distance = |intersection - start position|')
     else:
@@ -1287,5 +1300,87 @@ def c01_media_chain(ctx):
     return _r(ctx)
 
 
-RULES = [c01_media_chain, no_stale, records, scatter_unit, snell_law, reflect_law, align_normal, on_surface, normal_gradient,
+def newton_unconverged(ctx):
+    """'rays with no intersection ... are reported as non-finite, never as
+    finite numbers': the iterative solver runs a fixed number of steps; a ray
+    whose residual is still above the tolerance afterwards has no valid
+    intersection and must not be returned as one"""
+    P = ctx.P
+    res = Result('NEWTON-UNCONVERGED', 'after the last iteration rays whose '
+                 'residual exceeds the tolerance are marked non-finite')
+    f = P.func('NewtonRaphsonGeometry.distance')
+    res.saw(f)
+    loops = [i for i, st in enumerate(f.node.body)
+             if isinstance(st, (ast.For, ast.While))]
+    if not loops:
+        raise AnalysisError('NewtonRaphsonGeometry.distance: loop not found')
+    after = f.node.body[loops[-1] + 1:]
+    # names that carry "residual compared with the tolerance" after the loop,
+    # with polarity: True = the ray converged, False = it did not
+    flags, resid = {}, set()
+
+    def _names(n):
+        return {x.id for x in ast.walk(n) if isinstance(x, ast.Name)}
+
+    def _polarity(e):
+        """+1 converged / -1 unconverged / None for a boolean expression"""
+        if isinstance(e, ast.Name):
+            return flags.get(e.id)
+        if isinstance(e, ast.UnaryOp) and isinstance(e.op, (ast.Invert,
+                                                            ast.Not)):
+            p = _polarity(e.operand)
+            return -p if p else None
+        if isinstance(e, ast.Compare) and len(e.ops) == 1:
+            l, r = e.left, e.comparators[0]
+            lt = 'tol' in unparse(l)
+            rt = 'tol' in unparse(r)
+            other = r if lt else l
+            if lt == rt or not (_names(other) & resid or
+                                'sag(' in unparse(other)):
+                return None
+            small = isinstance(e.ops[0], (ast.Lt, ast.LtE))
+            big = isinstance(e.ops[0], (ast.Gt, ast.GtE))
+            if not (small or big):
+                return None
+            if lt:                      # tol > |res|  <=>  |res| < tol
+                small, big = big, small
+            return 1 if small else -1
+        return None
+
+    masked = False
+    for st in after:
+        if isinstance(st, ast.Assign) and len(st.targets) == 1 and \
+                isinstance(st.targets[0], ast.Name):
+            if 'sag(' in unparse(st.value) or _names(st.value) & resid:
+                resid.add(st.targets[0].id)
+            p = _polarity(st.value)
+            if p:
+                flags[st.targets[0].id] = p
+        for c in ast.walk(st):
+            if isinstance(c, ast.Call) and unparse(c.func) == 'np.where' and \
+                    len(c.args) == 3:
+                p = _polarity(c.args[0])
+                bad = {1: c.args[2], -1: c.args[1]}.get(p)
+                if bad is not None and unparse(bad) in ('np.nan', 'np.inf'):
+                    masked = True
+        if isinstance(st, ast.Assign) and isinstance(st.targets[0],
+                                                     ast.Subscript) and \
+                unparse(st.value) in ('np.nan', 'np.inf') and \
+                _polarity(st.targets[0].slice) == -1:
+            masked = True
+    if masked:
+        res.ok('unconverged rays are masked after the loop')
+    else:
+        res.fail(ctx.finding(
+            'NEWTON-UNCONVERGED', f, f.node.body[loops[-1]],
+            'NewtonRaphsonGeometry.distance returns the iterate of every ray '
+            'after max_iter steps (or when the batch maximum converged) '
+            'without looking at its own residual: where the fixed-point step '
+            'dz / N stalls (steep asphere, oblique ray) the recorded point '
+            'is millimetres off the surface and still finite',
+            construct='no convergence check after the iteration'))
+    return res
+
+
+RULES = [newton_unconverged, c01_media_chain, no_stale, records, scatter_unit, snell_law, reflect_law, align_normal, on_surface, normal_gradient,
          frames, trace_order, same_medium, nonfinite]
